@@ -1,6 +1,6 @@
 """C17 - the compressor never crashes or emits bad output for any parameter combination."""
 ID = "C17"
-VARIANTS = ["san", "simd"]
+VARIANTS = ["san", "simd", "sanp"]      # sanp: san built with -DLJT_VERIF_POOLS (no pool slop: ASan sees intra-pool overruns)
 RULE = ("cparam: the compression object filled from a seeded structured generator, family by family: (0) everything at once, (1) sampling "
         "factors 0..5 and table selectors 0..4 per component, (2) quantisation tables written directly by the application (zeros, 65535, "
         "8192, random 16-bit), (3) hostile Huffman tables (exactly complete code, over-subscribed, counts beyond 256, random counts and "
